@@ -104,6 +104,30 @@ def replay_box(arg):
                         mism.append(("plane-distance:map-storage", "plane distance^2 %r of the pair stored in map not among specification values %s" % (pdm * pdm, plane), rep))
                 except Exception as ex:
                     mism.append(("raised", "PlaneDistanceMatching in map storage raised %r" % (ex,), rep))
+            # the same pair obtained by the library's own interpolation between two poses that were scored before (a derived object carries
+            # whatever its sources had cached): the scores depend on the boxes only
+            try:
+                from perception_eval.common.geometry import interpolate_dynamic_object
+
+                def derive(box, d):
+                    lo, hi = mk(box, 0, (-d[0], -d[1], 0.0)), mk(box, 0, (d[0], d[1], 0.0))
+                    scores(lo, hi)
+                    lo.get_corners()
+                    return interpolate_dynamic_object(lo, hi, 1000, 2000, 1500)
+
+                Ad, Bd = derive(a, (3.0, -2.0)), derive(b, (-5.0, 1.0))
+                cd_d, i2_d, i3_d, pd_d = scores(Ad, Bd)
+                dg = ":shared-collinear-edge-under-rotation" if shares_collinear_edge(a, b) else ""
+                if abs(cd_d * cd_d - cd2) > 1e-9:
+                    mism.append(("center-distance:derived-objects", "centre distance %r of interpolated objects, specification sqrt(%r)" % (cd_d, cd2), rep))
+                if abs(i2_d - i2) > 1e-9:
+                    mism.append(("iou2d%s%s" % (dg, "" if dg else ":derived-objects"), "BEV IoU %r of interpolated objects, specification %s" % (i2_d, out["iou2"]), rep))
+                if abs(i3_d - i3) > 1e-9:
+                    mism.append(("iou3d%s%s" % (dg, "" if dg else ":derived-objects"), "3-D IoU %r of interpolated objects, specification %s" % (i3_d, out["iou3"]), rep))
+                if not any(abs(pd_d * pd_d - v) < 1e-8 for v in plane):
+                    mism.append(("plane-distance:derived-objects", "plane distance^2 %r of interpolated objects not among specification values %s" % (pd_d * pd_d, plane), rep))
+            except Exception as ex:
+                mism.append(("raised", "interpolated objects raised %r" % (ex,), rep))
             fp = list(A.get_footprint().exterior.coords)[:4]
             want = [(p[0] / 2.0, p[1] / 2.0) for p in out["cornersA"]]
             if any(abs(f[0] - w[0]) > 1e-9 or abs(f[1] - w[1]) > 1e-9 for f, w in zip(fp, want)):
